@@ -154,6 +154,9 @@ def alg_matrix(world, pool, tier, rng, sample=None, part=None):
             h = seg(hdr)
             msg = h + b"." + payload
             sigs = [("absent", b""), ("garbage", b"AAAA")]
+            # a third segment that is there but holds no signature: white space, padding
+            ws = (b"\n", b" ", b"\r\n", b"\t", b"=", b"==", b" \n")[(len(metas) + len(hname)) % 7]
+            sigs.append(("blank %r" % ws, ws))
             hs_ord = K.ALG_ORD[hname] if hname in HS_MIN else 1
             sigs.append(("hmac-emptykey", hs_sig(hs_ord, b"", msg)))
             if key is not None:
@@ -662,10 +665,14 @@ def claims_suite(world, pool, tier, rng):
                 ("claimset aud " + hx(b"a"), ("aud", b"a")), ("claimdel aud", ("aud", None)),
                 ("claimset iss " + hx(b"z\xfcrich"), ("iss", "REFUSED")), ("claimset aud " + hx(b"\xff\xfe"), ("aud", "REFUSED")),
                 ("leeway exp -1", ("exp", (False, -1))), ("leeway exp 0", ("exp", (True, 0))), ("leeway exp 5", ("exp", (True, 5))),
-                ("leeway nbf -1", ("nbf", (False, -1))), ("leeway nbf 0", ("nbf", (True, 0))), ("leeway nbf 5", ("nbf", (True, 5)))]
+                ("leeway nbf -1", ("nbf", (False, -1))), ("leeway nbf 0", ("nbf", (True, 0))), ("leeway nbf 5", ("nbf", (True, 5))),
+                # a later value that extends / is extended by / empties the earlier one; spans that do not fit 32 bits
+                ("claimset iss " + hx(b"ab"), ("iss", b"ab")), ("claimset iss -", ("iss", b"")), ("claimset aud " + hx(b"a.example"), ("aud", b"a.example")),
+                ("leeway exp %d" % (2 ** 31 + 5), ("exp", (True, 2 ** 31 + 5))), ("leeway nbf %d" % (2 ** 32 + 5), ("nbf", (True, 2 ** 32 + 5)))]
     maxlen = 3 if thorough else 2
     probes = [{"exp": 1000}, {"exp": 996}, {"exp": 1001}, {"nbf": 1000}, {"nbf": 1004}, {"nbf": 1006},
-              {"iss": "a", "aud": "a"}, {"iss": "b"}, {"aud": "a"}, {}]
+              {"iss": "a", "aud": "a"}, {"iss": "b"}, {"aud": "a"}, {}, {"iss": "ab", "aud": "a.example"}, {"iss": ""},
+              {"exp": 1000 - 2 ** 31}, {"exp": 990 - 2 ** 31}, {"nbf": 1000 + 2 ** 32}, {"nbf": 1010 + 2 ** 32}]
     seqs = [s for n in range(1, maxlen + 1) for s in itertools.product(range(len(alphabet)), repeat=n)]
     extra = []
     for _ in range(2000 if thorough else 300):
@@ -1508,7 +1515,7 @@ def _cfg_alphabet(it_priv):
           ("cdel -", lambda b: b.claims.delete(None)),
           ("iat 0", lambda b: setattr(b, "iat", False)), ("iat 1", lambda b: setattr(b, "iat", True))]
     for cl in ("exp", "nbf"):
-        for secs in (-5, 0, 1, 600):
+        for secs in (-5, 0, 1, 600, 2 ** 31 - 1, 2 ** 31, 2 ** 32 + 7, 2 ** 62):      # a span is a 64-bit time_t
             al.append(("offset %s %d" % (cl, secs), (lambda cl, secs: lambda b: setattr(b, cl + "_off", secs if secs > 0 else None))(cl, secs)))
     al.append(("setkey 0 %d %d" % it_priv, lambda b: setattr(b, "alg", "HS256")))
     al.append(("setkey 0", lambda b: setattr(b, "alg", None)))
@@ -1848,6 +1855,24 @@ def roundtrip_suite(world, pool, tier, rng):
         world.op("ck 6 new", tag="cfg")
         world.op("ck 6 setkey 0 %d %d" % kbp, tag="cfg")
         metas.append((len(world.ops), {"kind": "verify-generated", "key": "oct32", "alg": "HS256", "sign": "openssl", "verify": "openssl", "want_obs": None}))
+        world.op("ck 6 verify @last", tag="verify")
+    # integers of every width: what the builder was given is what the checker's callback reads back as an INT, and an
+    # expiry far in the future is in the future
+    for vi, v_ in enumerate([2 ** 31 - 1, 2 ** 31, 2 ** 32 + 1, 2 ** 53, 2 ** 53 + 1, 2 ** 62 + 12345, 2 ** 63 - 513, 2 ** 63 - 1, 1700000000123456789, -(2 ** 53) - 1, -(2 ** 63)]):
+        world.op("bl 6 new", tag="cfg")
+        world.op("bl 6 setkey 0 %d %d" % kbp, tag="cfg")
+        world.op("bl 6 iat 0", tag="cfg")
+        cl_ = {"big": v_, "exp": v_} if v_ > 5000 else {"big": v_}
+        world.op("bl 6 cset json - %s 1" % hx(JL.dumps(cl_)), tag="cfg")
+        world.op("bl 6 hset int %s %d 1" % (hx(b"seq"), v_), tag="cfg")
+        metas.append((len(world.ops), {"kind": "gen", "hdr": JL.jenc({"alg": "HS256", "typ": "JWT", "seq": v_}), "pay": JL.jenc(cl_), "alg": "HS256", "now": 5000,
+                                       "seq": "integer %d" % v_, "prog": None}))
+        world.op("bl 6 gen", tag="gen")
+        world.op("ck 6 new", tag="cfg")
+        world.op("ck 6 setkey 0 %d %d" % kbp, tag="cfg")
+        world.op("ck 6 setcb cget:int:%s,hget:int:%s,cget:int:%s" % (hx(b"big"), hx(b"seq"), hx(b"exp")), tag="cfg")
+        want_obs = "alg=0 key=1;%s;%s;%s" % (PS.show_get("int", 0, v_), PS.show_get("int", 0, v_), PS.show_get("int", 0, v_) if "exp" in cl_ else PS.show_get("int", 2, None))
+        metas.append((len(world.ops), {"kind": "verify-generated", "key": "oct32", "alg": "HS256", "sign": "openssl", "verify": "openssl", "want_obs": want_obs}))
         world.op("ck 6 verify @last", tag="verify")
     # member names: a header or claim may be called anything -- every first character of the printable range (names that sort
     # ahead of "alg" become the first member of the header and change how the token starts), a few longer and non-ASCII ones
